@@ -25,7 +25,7 @@ type customLevel struct {
 }
 
 var c01Custom = []customLevel{
-	{-3, "neg3", -1000}, {13, "thirteen", 4}, {17, "seventeen", 2}, {40, "forty", 0},
+	{-3, "neg3", -1000}, {-21, "neginfo", 4}, {-6, "negwarn", 3}, {13, "thirteen", 4}, {17, "seventeen", 2}, {40, "forty", 0},
 	{12, "atmax", 5}, {50, "asoff", 7}, {51, "asalways", 8}, {60, "aswarn", 3}, {61, "astrace", 6}, {62, "asmax", 12},
 }
 
